@@ -258,6 +258,18 @@ def run_case(case, tier="quick", seed=0, do_replay=True):
         res["paths"] = len(paths)
         res["exec_s"] = round(time.time() - t_exec, 3)
         first_model_env = None
+
+        def _on_probe(pth):
+            # paths on which a probe point lies first: a violation there is found by the cheap numeric witness
+            for k in (0, 1):
+                try:
+                    if all(f.holds(ctx, ctx.probe_env(k)) for f in pth[0]):
+                        return 0
+                except Exception:  # noqa: BLE001
+                    pass
+            return 1
+
+        paths = sorted(paths, key=_on_probe)
         for pc, (kind, out) in paths:
             ctx.pc = list(pc)
             if kind == "raise":
@@ -290,11 +302,22 @@ def run_case(case, tier="quick", seed=0, do_replay=True):
                     _handle_sat(case, ctx, res, mk, ("__raises__", ()), "", None, f"code:{a} oracle:{b} {out.get('__trace__', '')} {refd.get('__trace__', '')}", do_replay)
                 continue
             fo, fr = flatten(out), dict(flatten(refd))
+            kc = {k for k, _ in fo if not k[0].startswith("_")}
+            kr = {k for k in fr if not k[0].startswith("_")}
+            if kc != kr:
+                # the code returns arrays of another shape than the oracle: one outcome-kind obligation, decided by the replay
+                res["obligations"] += 1
+                note = f"code returns {len(kc)} elements, oracle {len(kr)}; only in code: {sorted(kc - kr)[:3]}, only in oracle: {sorted(kr - kc)[:3]}"
+                model = None
+                if ctx.pc:
+                    try:  # a point on this path
+                        st, model = ctx.check(core.BoolConst(True), kind="shape", timeout=case.query_timeout, want_model=True)
+                        model = model if st == "sat" else None
+                    except Exception:  # noqa: BLE001
+                        model = None
+                _handle_sat(case, ctx, res, mk, ("__shape__", ()), "", model, note, do_replay)
             for key, v in fo:
                 if key not in fr:
-                    if key[0].startswith("_"):
-                        continue
-                    res["harness_errors"].append(f"label {key} missing from oracle")
                     continue
                 w = fr[key]
                 if isinstance(w, Claim):
@@ -310,6 +333,20 @@ def run_case(case, tier="quick", seed=0, do_replay=True):
                     res["obligations"] += 1
                     if len(res["violations"]) + len(res["known"]) >= MAX_VIOL_PER_CASE:
                         res["skipped_after_violation"] = res.get("skipped_after_violation", 0) + 1
+                        continue
+                    if res["violations"] and do_replay:
+                        # the case already failed (replayed violation): the remaining obligations only get the cheap
+                        # numeric witness search; hard satisfiable queries would use up the case's budget for nothing
+                        try:
+                            wit = _numeric_witness(ctx, x, y)
+                        except Exception:  # noqa: BLE001
+                            wit = None
+                        if wit is not None:
+                            n_inc = len(res["inconclusive"])
+                            if _handle_sat(case, ctx, res, mk, key, suf, wit, "numeric witness", do_replay) != "sat":
+                                del res["inconclusive"][n_inc:]
+                        else:
+                            res["skipped_after_violation"] = res.get("skipped_after_violation", 0) + 1
                         continue
                     status = _decide_equal(case, ctx, res, mk, key, suf, x, y, do_replay)
                     if status == "unsat":
